@@ -51,10 +51,16 @@ Record faults := {
   f_ob : list (path * bool);      (* obstacles appearing when the swap stage begins (true = persistent) *)
   f_rob : list (path * bool) }.   (* obstacles appearing when the restore stage begins *)
 
-Record variant := { v_mode_fix : bool; v_curm_fix : bool }.
+(* v_keep_fix: a ForceRetry apply over an interrupted upgrade keeps that upgrade's snapshot;
+   v_stale_fix: Rollback refuses a journal whose snapshot never completed *)
+Record variant := { v_mode_fix : bool; v_curm_fix : bool; v_keep_fix : bool; v_stale_fix : bool }.
+
+(* "no current-manifest.yaml": version discovery then asks the installed binary, which the harness
+   answers with the version string of this id *)
+Definition NOVER : ver := 63%N.
 
 Inductive phase :=
-| PStarted | PSnapshotDone | PPreHookDone | PRestartSuspended | PDaemonStopped
+| PStarted | PRetryStarted | PSnapshotDone | PPreHookDone | PRestartSuspended | PDaemonStopped
 | PSwapping (p : path) | PSwapped (p : path) | PAbortedMidSwap | PAbortedPostSwap
 | PDaemonStarted | PHealthFailed | PCompleted | PRollbackFailed | PRolledBack.
 
@@ -162,6 +168,9 @@ Definition needs_vpp (arts : list artifact) : bool := existsb a_vpp arts.
 
 Definition empty_snap : snapdir := {| s_meta := None; s_bak := fun _ => None; s_curm := None |}.
 
+(* saveCurrentManifest: a missing current-manifest leaves no copy *)
+Definition curm_of (c : ver) : option ver := if N.eqb c NOVER then None else Some c.
+
 Definition do_snapshot (v : variant) (w : world) (from : ver) (arts : list artifact) : world * bool :=
   let d0 := match snaps w from with Some d => d | None => empty_snap end in
   let '(b, es) := snap_loop v (fs w) (s_bak d0) arts in
@@ -170,7 +179,17 @@ Definition do_snapshot (v : variant) (w : world) (from : ver) (arts : list artif
   | Some l =>
       (set_snaps w (upd (snaps w) from
          (Some {| s_meta := Some (needs_vpp arts, l); s_bak := b;
-                  s_curm := if v_curm_fix v then Some (cur w) else s_curm d0 |})), true)
+                  s_curm := if v_curm_fix v then curm_of (cur w) else s_curm d0 |})), true)
+  end.
+
+(* Snapshot() returned, saveCurrentManifest has not run yet (crash label 36) *)
+Definition do_snapshot_nocurm (v : variant) (w : world) (from : ver) (arts : list artifact) : world :=
+  let d0 := match snaps w from with Some d => d | None => empty_snap end in
+  let '(b, es) := snap_loop v (fs w) (s_bak d0) arts in
+  match es with
+  | None => w
+  | Some l => set_snaps w (upd (snaps w) from
+                (Some {| s_meta := Some (needs_vpp arts, l); s_bak := b; s_curm := s_curm d0 |}))
   end.
 
 (* PruneSnapshots(keep = 1) right after a completed apply: the snapshot just taken is the newest *)
@@ -213,16 +232,20 @@ Definition vpp_seq (F : faults) (b : N) : oc :=
 (* ---- Rollback ---- *)
 Inductive rbres := RbOk | RbErr | RbCrash.
 
+(* restoreCurrentManifest: no saved copy = remove current-manifest.yaml *)
 Definition restore_curm (v : variant) (w : world) (d : snapdir) : world :=
-  if v_curm_fix v then match s_curm d with Some c => set_cur w c | None => w end else w.
+  if v_curm_fix v then match s_curm d with Some c => set_cur w c | None => set_cur w NOVER end else w.
 
 Definition restore_ginst (w : world) : world :=
   match g_base w with Some (true, _, vi) => set_ginst w vi | _ => w end.
+
+Definition phase_started (p : phase) : bool := match p with PStarted => true | _ => false end.
 
 Definition rollback_flow (v : variant) (F : faults) (w : world) : world * rbres :=
   match jr w with
   | None => (w, RbErr)
   | Some j =>
+    if v_stale_fix v && phase_started (j_phase j) then (w, RbErr) else
     match snaps w (j_from j) with
     | None => (w, RbErr)
     | Some d =>
@@ -321,16 +344,19 @@ Definition post_swap (v : variant) (T : tarball) (F : faults) (from : ver) (w7 :
     end
   end.
 
-Definition apply_flow (v : variant) (T : tarball) (F : faults) (w : world) : world * res :=
-  let from := cur w in
+(* an interrupted upgrade whose snapshot completed: the journal is neither finished nor at "started" *)
+Definition resume (w : world) : bool :=
+  match jr w with
+  | Some j => match j_phase j with PCompleted | PRolledBack | PStarted => false | _ => true end
+  | None => false
+  end.
+
+Definition covered (es : list entry) (arts : list artifact) : bool :=
+  forallb (fun a => existsb (fun e => N.eqb (e_path e) (a_path a)) es) arts.
+
+(* stage 6 onwards; w2 carries phase snapshot_done; [from] = key of the snapshot directory *)
+Definition after_snapshot (v : variant) (T : tarball) (F : faults) (from : ver) (w2 : world) : world * res :=
   let arts := t_arts T in
-  let base := base_of w arts in
-  let w0 := set_gfs0 (set_gbase (set_jr w (Some {| j_from := from; j_to := t_to T; j_phase := PStarted |}))
-                                (Some (false, base, cur w))) (fs w) true in
-  if crash_at F 25 then (w0, RCrash) else
-  let '(w1, ok) := do_snapshot v w0 from arts in
-  if negb ok then (w1, RErr) else
-  let w2 := set_phase (set_gbase w1 (Some (true, base, cur w))) PSnapshotDone in
   if crash_at F 26 then (w2, RCrash) else
   if negb (t_hook_ok T) then (w2, RErr) else
   let w3 := set_phase w2 PPreHookDone in
@@ -352,6 +378,49 @@ Definition apply_flow (v : variant) (T : tarball) (F : faults) (w : world) : wor
       else post_swap v T F from w7
     end
   end.
+
+(* a fresh snapshot into rollback/<current version>.  The ghost baseline is reset exactly when the
+   journal found is not an interrupted upgrade ([resume w = false]: none, completed, rolled back, or
+   stopped at "started" before anything was modified) — a rule about the observable journal phase, the
+   same one the harness applies to the journal file; it does not depend on what this flow goes on to do. *)
+Definition fresh_flow (v : variant) (T : tarball) (F : faults) (w : world) : world * res :=
+  let from := cur w in
+  let arts := t_arts T in
+  let base := base_of w arts in
+  let reset := negb (resume w) in
+  let wj := set_jr w (Some {| j_from := from; j_to := t_to T; j_phase := PStarted |}) in
+  let w0 := if reset then set_gfs0 (set_gbase wj (Some (false, base, cur w))) (fs w) true else wj in
+  if crash_at F 25 then (w0, RCrash) else
+  let '(w1, ok) := do_snapshot v w0 from arts in
+  if negb ok then (w1, RErr) else
+  if crash_at F 36 && reset then (do_snapshot_nocurm v w0 from arts, RCrash) else
+  let w2 := set_phase (if reset then set_gbase w1 (Some (true, base, cur w)) else w1) PSnapshotDone in
+  after_snapshot v T F from w2.
+
+(* ForceRetry over an interrupted upgrade (proposed fix): keep its snapshot and its from-version *)
+Definition keep_flow (v : variant) (T : tarball) (F : faults) (w : world) (j : journal) (d : snapdir)
+           (nv : bool) (es : list entry) : world * res :=
+  let w0 := set_jr w (Some {| j_from := j_from j; j_to := t_to T; j_phase := PRetryStarted |}) in
+  if crash_at F 25 then (w0, RCrash) else
+  let w1 := set_snaps w0 (upd (snaps w0) (j_from j)
+              (Some {| s_meta := Some (nv || needs_vpp (t_arts T), es); s_bak := s_bak d; s_curm := s_curm d |})) in
+  after_snapshot v T F (j_from j) (set_phase w1 PSnapshotDone).
+
+Definition apply_flow (v : variant) (T : tarball) (F : faults) (w : world) : world * res :=
+  if v_keep_fix v && resume w then
+    match jr w with
+    | Some j =>
+      match snaps w (j_from j) with
+      | Some d =>
+        match s_meta d with
+        | Some (nv, es) => if covered es (t_arts T) then keep_flow v T F w j d nv es else (w, RErr)
+        | None => fresh_flow v T F w
+        end
+      | None => fresh_flow v T F w
+      end
+    | None => fresh_flow v T F w
+    end
+  else fresh_flow v T F w.
 
 Definition apply (v : variant) (T : tarball) (Q : opts) (F : faults) (w : world) : world * res :=
   if admits T Q w then apply_flow v T F w else (w, RErr).
@@ -384,8 +453,8 @@ Definition mon_new (w : world) (arts : list artifact) : mon :=
 
 Definition mon_restored (w : world) : mon :=
   match g_base w with
-  | Some (true, l, _) => if forallb (fun pf => ofile_eqb (fs w (fst pf)) (snd pf)) l then MonOk else MonMixed
-  | _ => MonNa
+  | Some (_, l, _) => if forallb (fun pf => ofile_eqb (fs w (fst pf)) (snd pf)) l then MonOk else MonMixed
+  | None => MonNa
   end.
 
 (* what a path RESOLVES to: the bytes read through it (symlink targets are node ids: artifact paths,
@@ -406,12 +475,12 @@ Definition ocontent_eqb (a b : option content) : bool :=
    before the upgrade, provided no operator edit happened in between *)
 Definition mon_resolved (w : world) : mon :=
   match g_base w with
-  | Some (true, l, _) =>
+  | Some (_, l, _) =>
       if g_clean w then
         if forallb (fun pf => ocontent_eqb (resolve (fs w) (fst pf) 16) (resolve (g_fs0 w) (fst pf) 16)) l
         then MonOk else MonMixed
       else MonNa
-  | _ => MonNa
+  | None => MonNa
   end.
 
 (* after a reported success current-manifest must name the version of the tree the operation
@@ -420,8 +489,8 @@ Definition mon_resolved (w : world) : mon :=
 Definition ver_new (w : world) (T : tarball) : mon := if N.eqb (cur w) (t_to T) then MonOk else MonMixed.
 Definition ver_restored (w : world) : mon :=
   match g_base w with
-  | Some (true, _, vi) => if N.eqb (cur w) vi then MonOk else MonMixed
-  | _ => MonNa
+  | Some (_, _, vi) => if N.eqb (cur w) vi then MonOk else MonMixed
+  | None => MonNa
   end.
 
 Inductive op :=
@@ -478,8 +547,11 @@ Definition init_world (c : ver) (f : path -> option file) : world :=
   {| fs := f; cur := c; jr := None; snaps := fun _ => None; obst := fun _ => None; g_base := None; g_inst := c;
      g_fs0 := f; g_clean := true |}.
 
-Definition repaired : variant := {| v_mode_fix := true; v_curm_fix := true |}.
-Definition defective : variant := {| v_mode_fix := false; v_curm_fix := false |}.
+Definition repaired : variant := {| v_mode_fix := true; v_curm_fix := true; v_keep_fix := true; v_stale_fix := true |}.
+(* /repo at 88f69f7+f4d379f: mode and current-manifest fixes in, ForceRetry still re-snapshots, Rollback still
+   accepts a journal at "started" *)
+Definition head1 : variant := {| v_mode_fix := true; v_curm_fix := true; v_keep_fix := false; v_stale_fix := false |}.
+Definition defective : variant := {| v_mode_fix := false; v_curm_fix := false; v_keep_fix := false; v_stale_fix := false |}.
 
 (* ---- safeTarEntryPath: names are byte strings, '/' = 47, '.' = 46, '\' = 92 ---- *)
 Definition bstr := list N.
